@@ -31,6 +31,10 @@ Definition skipn_z (off : Z) (img : list Z) : list Z :=
 Definition firstn_z (n : Z) (bs : list Z) : list Z :=
   if n <? zlen bs then firstn (Z.to_nat n) bs else bs.
 Definition read_at (img : list Z) (off n : Z) : list Z := firstn_z n (skipn_z off img).
+(* stream.read(n) at the cursor [cur]: the bytes and the cursor afterwards (a short read at EOF
+   advances by what was read) *)
+Definition read_cur (img : list Z) (cur n : Z) : list Z * Z :=
+  let bs := read_at img cur n in (bs, cur + zlen bs).
 (* construct Field(n): exactly n bytes or FieldError *)
 Definition take_z (n : Z) (bs : list Z) : option (list Z * list Z) :=
   if n <=? zlen bs then Some (firstn (Z.to_nat n) bs, skipn (Z.to_nat n) bs) else None.
@@ -255,28 +259,40 @@ Definition decode_desc (c : cfg) (img : list Z) (k : kind) (offset descsz : Z) (
   | KNone => Ok (DVBytes desc_data)
   end.
 
+(* The stream cursor is explicit from here on.  The file object belongs to the consumer as much as
+   to the generator: between two yields the consumer may read other sections, walk another extent
+   in lock step or seek anywhere, so the cursor [cur] a step starts with is unknown.  A read through
+   struct_parse(..., stream_pos=off) or after stream.seek(off) is absolute (the cursor is
+   overwritten); stream.read(n) is relative to the cursor. *)
+
 (* if note['n_namesz']: disk_namesz = roundup(n_namesz, 2);
        n_name = bytes2str(CString('').parse(stream.read(disk_namesz))); offset += disk_namesz
-   else: n_name = None.        CString('').parse is not wrapped by struct_parse: ArrayError *)
-Definition read_name (img : list Z) (offset namesz : Z) : res (option (list Z) * Z) :=
-  if namesz =? 0 then Ok (None, offset)
+   else: n_name = None.        CString('').parse is not wrapped by struct_parse: ArrayError.
+   Returns the name, the offset and the cursor afterwards. *)
+Definition read_name (img : list Z) (cur offset namesz : Z) : res (option (list Z) * Z * Z) :=
+  if namesz =? 0 then Ok (None, offset, cur)
   else
     let disk_namesz := roundup namesz 2 in
-    match cstring_decode (read_at img offset disk_namesz) with
-    | Some (s, _) => Ok (Some s, offset + disk_namesz)
+    let '(bs, cur') := read_cur img cur disk_namesz in        (* stream.read(disk_namesz) *)
+    match cstring_decode bs with
+    | Some (s, _) => Ok (Some s, offset + disk_namesz, cur')
     | None => Err (EPy "ArrayError")
     end.
 
-(* one loop iteration: the note at [offset] and the offset of the next one *)
-Definition one_note (c : cfg) (img : list Z) (offset : Z) : res (onote * Z) :=
-  do hdr <- struct_parse_at (Elf_Nhdr c) img offset;
+(* one loop iteration, resumed with the cursor at [cur]: the note at [offset] and the offset of the
+   next one *)
+Definition one_note (c : cfg) (img : list Z) (cur : Z) (offset : Z) : res (onote * Z) :=
+  let cur0 := offset in                                   (* struct_parse(..., stream_pos=offset) seeks: [cur] is overwritten *)
+  do hdr <- struct_parse_at (Elf_Nhdr c) img cur0;
   do t <- enum_field (n_type_table c) (n_type_strict c) (rec_z hdr "n_type");
   let namesz := rec_z hdr "n_namesz" in
   let descsz := rec_z hdr "n_descsz" in
   let offset1 := offset + sizeof (Elf_Nhdr c) in
-  do nm <- read_name img offset1 namesz;
-  let '(name, offset2) := nm in
-  let desc_data := read_at img offset2 descsz in          (* elffile.stream.read(n_descsz) *)
+  let cur1 := offset1 in                                  (* elffile.stream.seek(offset) *)
+  do nm <- read_name img cur1 offset1 namesz;
+  let '(name, offset2, cur2) := nm in
+  let '(desc_data, _) := read_cur img cur2 descsz in      (* elffile.stream.read(n_descsz): at the cursor *)
+  (* the descriptor decoders all pass stream_pos: absolute *)
   do dv <- decode_desc c img (desc_dispatch t name) offset2 descsz desc_data;
   let offset3 := offset2 + roundup descsz 2 in
   Ok ({| o_namesz := namesz; o_descsz := descsz; o_type := t; o_offset := offset;
@@ -284,51 +300,57 @@ Definition one_note (c : cfg) (img : list Z) (offset : Z) : res (onote * Z) :=
          o_size := offset3 - offset |}, offset3).
 
 (* while offset + nhdr_size <= end: ... yield note      (guard as repaired by the fix: commit;
-   the generator yields the notes before an exception: (yielded, Some error)) *)
-Fixpoint iter_notes_go (fuel : nat) (c : cfg) (img : list Z) (offset end_ : Z)
+   the generator yields the notes before an exception: (yielded, Some error)).
+   [adv i] is the stream cursor when the generator is resumed for its i-th step: whatever the
+   descriptor decoders of the previous step and then the consumer left there. *)
+Fixpoint iter_notes_go (fuel : nat) (c : cfg) (img : list Z) (adv : nat -> Z) (i : nat) (offset end_ : Z)
   : list onote * option err :=
   match fuel with
   | O => ([], Some EFuel)
   | S f =>
       if offset + sizeof (Elf_Nhdr c) <=? end_ then
-        match one_note c img offset with
+        match one_note c img (adv i) offset with
         | Err e => ([], Some e)
         | Ok (n, offset') =>
-            let (rest, e) := iter_notes_go f c img offset' end_ in (n :: rest, e)
+            let (rest, e) := iter_notes_go f c img adv (S i) offset' end_ in (n :: rest, e)
         end
       else ([], None)
   end.
 
-Definition iter_notes (c : cfg) (img : list Z) (offset size : Z) : list onote * option err :=
-  iter_notes_go (S (length img)) c img offset (offset + size).
+Definition iter_notes (c : cfg) (img : list Z) (adv : nat -> Z) (offset size : Z) : list onote * option err :=
+  iter_notes_go (S (length img)) c img adv O offset (offset + size).
 
 (* ---------------------------------------------------------------- sections.py / segments.py *)
 (* NoteSection.iter_notes: iter_notes(self.elffile, self['sh_offset'], self['sh_size']) *)
-Definition NoteSection_iter_notes (c : cfg) (img : list Z) (sh : record) :=
-  iter_notes c img (rec_z sh "sh_offset") (rec_z sh "sh_size").
+Definition NoteSection_iter_notes (c : cfg) (img : list Z) (adv : nat -> Z) (sh : record) :=
+  iter_notes c img adv (rec_z sh "sh_offset") (rec_z sh "sh_size").
 (* NoteSegment.iter_notes: iter_notes(self.elffile, self['p_offset'], self['p_filesz']) *)
-Definition NoteSegment_iter_notes (c : cfg) (img : list Z) (ph : record) :=
-  iter_notes c img (rec_z ph "p_offset") (rec_z ph "p_filesz").
+Definition NoteSegment_iter_notes (c : cfg) (img : list Z) (adv : nat -> Z) (ph : record) :=
+  iter_notes c img adv (rec_z ph "p_offset") (rec_z ph "p_filesz").
 
-(* StabSection.iter_stabs: while offset < end: parse Elf_Stabs at offset; n_offset; offset += sizeof *)
-Fixpoint iter_stabs_go (fuel : nat) (c : cfg) (img : list Z) (offset end_ : Z)
+(* StabSection.iter_stabs: while offset < end: parse Elf_Stabs at offset; n_offset; offset += sizeof;
+   stream.seek(offset); yield.        One step, resumed with the cursor at [cur]: *)
+Definition one_stab (c : cfg) (img : list Z) (cur : Z) (offset : Z) : res (record * Z) :=
+  let cur0 := offset in                                   (* struct_parse(..., stream_pos=offset) seeks: [cur] is overwritten *)
+  do r <- struct_parse_at (gen_Elf_Stabs (c_le c) (c_is64 c)) img cur0;
+  Ok (r, offset + sizeof (gen_Elf_Stabs (c_le c) (c_is64 c))).
+Fixpoint iter_stabs_go (fuel : nat) (c : cfg) (img : list Z) (adv : nat -> Z) (i : nat) (offset end_ : Z)
   : list (record * Z) * option err :=
   match fuel with
   | O => ([], Some EFuel)
   | S f =>
       if offset <? end_ then
-        match struct_parse_at (gen_Elf_Stabs (c_le c) (c_is64 c)) img offset with
+        match one_stab c img (adv i) offset with
         | Err e => ([], Some e)
-        | Ok r =>
-            let (rest, e) :=
-              iter_stabs_go f c img (offset + sizeof (gen_Elf_Stabs (c_le c) (c_is64 c))) end_ in
+        | Ok (r, offset') =>
+            let (rest, e) := iter_stabs_go f c img adv (S i) offset' end_ in
             ((r, offset) :: rest, e)
         end
       else ([], None)
   end.
-Definition StabSection_iter_stabs (c : cfg) (img : list Z) (sh : record) :=
+Definition StabSection_iter_stabs (c : cfg) (img : list Z) (adv : nat -> Z) (sh : record) :=
   let offset := rec_z sh "sh_offset" in
-  iter_stabs_go (S (length img)) c img offset (offset + rec_z sh "sh_size").
+  iter_stabs_go (S (length img)) c img adv O offset (offset + rec_z sh "sh_size").
 
 (* the headers as ELFFile reads them: struct_parse(Elf_Shdr / Elf_Phdr, stream, stream_pos=...) *)
 Definition section_header_at (c : cfg) (img : list Z) (off : Z) : res record :=
@@ -336,9 +358,9 @@ Definition section_header_at (c : cfg) (img : list Z) (off : Z) : res record :=
 Definition segment_header_at (c : cfg) (img : list Z) (off : Z) : res record :=
   struct_parse_at (gen_Elf_Phdr (c_le c) (c_is64 c)) img off.
 
-Definition section_notes_at (c : cfg) (img : list Z) (shoff : Z) : res (list onote * option err) :=
-  do sh <- section_header_at c img shoff; Ok (NoteSection_iter_notes c img sh).
-Definition segment_notes_at (c : cfg) (img : list Z) (phoff : Z) : res (list onote * option err) :=
-  do ph <- segment_header_at c img phoff; Ok (NoteSegment_iter_notes c img ph).
-Definition section_stabs_at (c : cfg) (img : list Z) (shoff : Z) : res (list (record * Z) * option err) :=
-  do sh <- section_header_at c img shoff; Ok (StabSection_iter_stabs c img sh).
+Definition section_notes_at (c : cfg) (img : list Z) (adv : nat -> Z) (shoff : Z) : res (list onote * option err) :=
+  do sh <- section_header_at c img shoff; Ok (NoteSection_iter_notes c img adv sh).
+Definition segment_notes_at (c : cfg) (img : list Z) (adv : nat -> Z) (phoff : Z) : res (list onote * option err) :=
+  do ph <- segment_header_at c img phoff; Ok (NoteSegment_iter_notes c img adv ph).
+Definition section_stabs_at (c : cfg) (img : list Z) (adv : nat -> Z) (shoff : Z) : res (list (record * Z) * option err) :=
+  do sh <- section_header_at c img shoff; Ok (StabSection_iter_stabs c img adv sh).
